@@ -532,6 +532,10 @@ class Interp:
         if isinstance(a, CArr) and isinstance(b, CArr) and len(a.elems) == len(b.elems):
             return CArr([self.A.ite(c, x, y) for x, y in zip(a.elems, b.elems)],
                         [self.A.ite(c, x, y) for x, y in zip(a.mask, b.mask)], a.dtype)
+        if hasattr(a, "pysym_merge") and type(a) is type(b):
+            r = a.pysym_merge(self, c, b)
+            if r is not None:
+                return r
         if isinstance(a, Partial) or isinstance(b, Partial):
             av, ad = (a.value, a.defined) if isinstance(a, Partial) else (a, True)
             bv, bd = (b.value, b.defined) if isinstance(b, Partial) else (b, True)
